@@ -46,6 +46,13 @@ def analyze_op(world, i, op):
     n = len(src_full)
     big = [c for c in r["objs"] if 2 * len(c.indices) >= n]
     if not big:
+        meta = world.spec["structures"][r["s"]].get("meta") or {}
+        if op.get("mono") and min(meta.get("rep", 0), meta.get("rep2", meta.get("rep", 0))) >= 3:
+            # a monolayer supercell with at least three repeats along both axes: the documented
+            # workflow needs "the cluster" to exist (ribbons and crystals: inconclusive, see DESIGN.md)
+            world._violate("NO_CLUSTER", i, "no cluster holds half of the %d atoms of the monolayer (sizes %s): there is no prototype cell to identify the material with"
+                           % (n, [len(c.indices) for c in r["objs"]]))
+            return {"out": "no-cluster"}
         world.probes["c04_inconclusive"] += 1
         return {"out": "inconclusive"}
     unit = world._pristine(op["source"])
